@@ -254,7 +254,7 @@ def run(ctx, spec):
                 ordered_syn = gen.random_syntenies(rng, list(lm), spec["max_fam"], ordered=True, consistent_p=1.0)
             case = {"kind": "eval", "G": Gn, "S": Sn, "leafmap": lm, "costs": c, "syn": ordered_syn}
             B = bridge.Built(case)
-            maps = list(itertools.islice(dtl.all_recs(B.G, B.S, B.leafmap), 3000))
+            maps = dtl.some_recs(B.G, B.S, B.leafmap, 3000, rng)
             if wide:
                 exts = [label.one_extension([tuple(s) for s in ordered_syn.values()], rng) for _ in range(3)]
             else:
